@@ -2,3 +2,4 @@ pub mod c20;
 pub mod codec;
 pub mod c06;
 pub mod c16;
+pub mod amf0;
